@@ -1073,7 +1073,25 @@ def _cf_same(eng, st, pos, kw):
     return [(st, BoolV(box(a, k) == box(b, k)))]
 
 
+def _cf_as_str(eng, st, pos, kw):
+    """as_str(x): the text alternative of a union value (total, underspecified when x is not text)."""
+    v = pos[0]
+    return [(st, _project(v, K_STR) if isinstance(v, UnionV) else v)]
+
+
+def _cf_as_dict(eng, st, pos, kw):
+    """as_dict(x): the dict alternative of a union value (all dict alternatives must have one kind)."""
+    v = pos[0]
+    if isinstance(v, UnionV):
+        cand = [a for _, a in _flat_alts(v) if isinstance(a, DictV)]
+        if cand and all(a.kind == cand[0].kind for a in cand):
+            return [(st, _project(v, cand[0].kind))]
+    return [(st, v)]
+
+
 CONTRACT_FUNCS = {
+    "as_str": FuncV(_cf_as_str, "as_str"),
+    "as_dict": FuncV(_cf_as_dict, "as_dict"),
     "same": FuncV(_cf_same, "same"),
     "ctx_of": FuncV(_cf_ctx_of, "ctx_of"),
     "has_attr": FuncV(_cf_has_attr, "has_attr"),
